@@ -17,6 +17,7 @@ type ctxNode struct {
 	twin     *Chan[struct{}]
 	children []*ctxNode
 	cancel   func(cause error)
+	after    []*afterFn // context.AfterFunc registrations
 }
 
 func (r *rtime) lookupCtx(ctx context.Context) *ctxNode {
@@ -48,6 +49,13 @@ func (n *ctxNode) closeTree() {
 	if !n.twin.closed {
 		n.twin.closeNow()
 	}
+	for _, a := range n.after {
+		if !a.stopped && !a.started {
+			a.started = true
+			rt.newThread("ctx-afterfunc", a.f)
+		}
+	}
+	n.after = nil
 	for _, c := range n.children {
 		c.closeTree()
 	}
